@@ -256,7 +256,7 @@ func main() {
 			x.knownObl[k.Obligation] = true
 		}
 	}
-	scfg := solveCfg{dir: filepath.Join(outDir, "smt"), fastSecs: 3, fullSecs: 20, jobs: 16, keepFiles: *keep}
+	scfg := solveCfg{dir: filepath.Join(outDir, "smt"), fastSecs: 3, fullSecs: 30, jobs: 16, keepFiles: *keep}
 	if *tier == "thorough" {
 		scfg.fullSecs = 60
 		scfg.confirm = true
